@@ -1,0 +1,9 @@
+//go:build !verif && linux
+
+package kcp
+
+import "net"
+
+// verifBatchConn: see verif_on_linux.go. Without the 'verif' build tag it is an
+// empty, inlinable function.
+func verifBatchConn(conn net.PacketConn) (batchConn, bool) { return nil, false }
